@@ -945,11 +945,12 @@ mod builtins {
             } else {
                 // Fast path for a more common case of single key
                 let key = if !keys.is_empty() { keys[0] } else { attr };
+                // items without the attribute sort like undefined: treating
+                // them as equal to everything is not a total order
                 safe_sort(&mut items, |a, b| {
-                    match (a.get_path(key), b.get_path(key)) {
-                        (Ok(a), Ok(b)) => cmp_helper(&a, &b, case_sensitive, reverse),
-                        _ => Ordering::Equal,
-                    }
+                    let key_a = a.get_path_or_default(key, &Value::UNDEFINED);
+                    let key_b = b.get_path_or_default(key, &Value::UNDEFINED);
+                    cmp_helper(&key_a, &key_b, case_sensitive, reverse)
                 })?;
             }
         } else {
